@@ -32,10 +32,30 @@ enum Ev {
 
 type Log = Arc<Mutex<Vec<Ev>>>;
 
+/// error kinds for injected faults: every kind a stream may fail with must stop the program (`Interrupted` is the one
+/// kind std retries by contract, so it is not a fault)
+const KINDS: &[std::io::ErrorKind] = &[
+    std::io::ErrorKind::Other,
+    std::io::ErrorKind::BrokenPipe,
+    std::io::ErrorKind::PermissionDenied,
+    std::io::ErrorKind::WriteZero,
+    std::io::ErrorKind::UnexpectedEof,
+    std::io::ErrorKind::TimedOut,
+    std::io::ErrorKind::ConnectionReset,
+    std::io::ErrorKind::WouldBlock,
+    std::io::ErrorKind::InvalidData,
+    std::io::ErrorKind::NotFound,
+    std::io::ErrorKind::InvalidInput,
+    std::io::ErrorKind::ConnectionAborted,
+];
+
 struct FaultyWriter {
     log: Log,
     accepted: usize,
     fail_at: Option<usize>,
+    kind: std::io::ErrorKind,
+    /// accept at most this many bytes per call (short writes are legal for any `Write`)
+    max_per_call: usize,
 }
 
 impl Write for FaultyWriter {
@@ -46,9 +66,9 @@ impl Write for FaultyWriter {
         let room = self.fail_at.map_or(usize::MAX, |k| k.saturating_sub(self.accepted));
         if room == 0 {
             self.log.lock().unwrap().push(Ev::W(Err(())));
-            return Err(std::io::Error::new(std::io::ErrorKind::Other, "injected write fault"));
+            return Err(std::io::Error::new(self.kind, "injected write fault"));
         }
-        let n = buf.len().min(room);
+        let n = buf.len().min(room).min(self.max_per_call.max(1));
         self.accepted += n;
         self.log.lock().unwrap().push(Ev::W(Ok(buf[..n].to_vec())));
         Ok(n)
@@ -59,11 +79,16 @@ impl Write for FaultyWriter {
 }
 
 /// hands out at most one line per call, so that a buffering reader cannot read ahead
+/// (`max_per_call` < usize::MAX: arbitrary smaller chunks, cutting lines and multi-byte characters anywhere)
 struct FaultyReader {
     log: Log,
     data: Vec<u8>,
     pos: usize,
     fail_at: Option<usize>,
+    kind: std::io::ErrorKind,
+    max_per_call: usize,
+    /// hand out whole buffers regardless of line ends (a reader that reads ahead: files, pipes)
+    ignore_lines: bool,
 }
 
 impl Read for FaultyReader {
@@ -74,12 +99,12 @@ impl Read for FaultyReader {
         if let Some(k) = self.fail_at {
             if self.pos >= k {
                 self.log.lock().unwrap().push(Ev::R(Err(())));
-                return Err(std::io::Error::new(std::io::ErrorKind::Other, "injected read fault"));
+                return Err(std::io::Error::new(self.kind, "injected read fault"));
             }
         }
         let rest = &self.data[self.pos..];
-        let line_end = rest.iter().position(|b| *b == b'\n').map_or(rest.len(), |p| p + 1);
-        let mut n = line_end.min(buf.len());
+        let line_end = if self.ignore_lines { rest.len() } else { rest.iter().position(|b| *b == b'\n').map_or(rest.len(), |p| p + 1) };
+        let mut n = line_end.min(buf.len()).min(self.max_per_call.max(1));
         if let Some(k) = self.fail_at {
             n = n.min(k - self.pos);
         }
@@ -164,10 +189,30 @@ struct RunResult {
     err: Option<(String, String)>,
 }
 
+#[derive(Clone, Copy)]
+struct Streams {
+    wfail: Option<usize>,
+    rfail: Option<usize>,
+    kind: std::io::ErrorKind,
+    write_chunk: usize,
+    read_chunk: usize,
+    read_ahead: bool,
+}
+
+impl Streams {
+    const PLAIN: Streams = Streams { wfail: None, rfail: None, kind: std::io::ErrorKind::Other, write_chunk: usize::MAX, read_chunk: usize::MAX, read_ahead: false };
+}
+
 fn run_faulty(tree: &rrss::frontend::ast::Program, stdin: &str, wfail: Option<usize>, rfail: Option<usize>, fuel: u64) -> Result<RunResult, String> {
+    // the kind of the injected error rotates with the fault position: every kind meets every position over the cases
+    let k = wfail.or(rfail).unwrap_or(0);
+    run_streams(tree, stdin, Streams { wfail, rfail, kind: KINDS[(k + stdin.len()) % KINDS.len()], ..Streams::PLAIN }, fuel)
+}
+
+fn run_streams(tree: &rrss::frontend::ast::Program, stdin: &str, st: Streams, fuel: u64) -> Result<RunResult, String> {
     let log: Log = Arc::new(Mutex::new(vec![]));
-    let w = FaultyWriter { log: log.clone(), accepted: 0, fail_at: wfail };
-    let r = FaultyReader { log: log.clone(), data: stdin.as_bytes().to_vec(), pos: 0, fail_at: rfail };
+    let w = FaultyWriter { log: log.clone(), accepted: 0, fail_at: st.wfail, kind: st.kind, max_per_call: st.write_chunk };
+    let r = FaultyReader { log: log.clone(), data: stdin.as_bytes().to_vec(), pos: 0, fail_at: st.rfail, kind: st.kind, max_per_call: st.read_chunk, ignore_lines: st.read_ahead };
     match exec_with(tree, r, w, RLimits { exec_fuel: Some(fuel), alloc_cap: Some(4_000_000) }) {
         Caught::Done(err) => Ok(RunResult { log: log.lock().unwrap().clone(), err }),
         Caught::Panic(p) => Err(format!("rrss panicked: {}", p)),
@@ -190,7 +235,7 @@ impl Prop for C08 {
     fn rule(&self) -> String {
         "programs of <= 20 I/O statements (say of markers, variables, concatenations, numbers, every kind, a string with a line break; listen with and without destination, into a variable or an array element) \
          interleaved with assignments, inside loops (1-3 iterations), inside branches that depend on what was read and inside a function that says and listens; input texts of 0-6 lines (empty, blank lines, \
-         non-ASCII, 100-300 character lines, with and without final newline). Each case runs fault-free (call log vs the model's I/O trace) and then once for every writer fault offset 0..len(transcript) and every \
+         non-ASCII, 100-300 character lines, with and without final newline); 2.5% echo-until-blank programs over 9-40 KiB of mostly multi-byte input. Each case runs fault-free (call log vs the model's I/O trace) and then once for every writer fault offset 0..len(transcript) and every \
          reader fault offset 0..len(input) incl. failing at EOF (all offsets when <= 64, else 64 spread + the two ends). \
          non-trivial = at least one say and one listen executed, or a fault strictly inside the transcript; distinct by program+input"
             .into()
@@ -199,6 +244,8 @@ impl Prop for C08 {
         vec![
             "the instrumented reader hands out at most one line per read call, so the buffered reader cannot read ahead and log order is program order".into(),
             "the oracle is over bytes, not calls (a say may issue several write calls)".into(),
+            "injected faults carry one of 12 error kinds, rotating with the fault position; `Interrupted` is not a fault (std retries it by contract)".into(),
+            "six fault-free legs with legal but awkward streams (short writes of 1/3/7 bytes, reads of 1/2/3/5 bytes cutting lines and characters anywhere, read-ahead of the whole input): only the transcript and the outcome are compared there".into(),
             "input is valid UTF-8 without CR directly before LF".into(),
         ]
     }
@@ -255,6 +302,29 @@ impl Prop for C08 {
         let transcript: Vec<u8> = m.out.clone().into_bytes();
         let mut evals = 1u32;
         let mut digest = fnv_str(&format!("{:?}", got));
+        // ---- legal but awkward streams: short writes, reads in small chunks that cut lines and multi-byte characters
+        // anywhere, and a reader that hands out everything at once (read-ahead); the transcript and the outcome must
+        // not depend on how the streams slice the bytes
+        for (wc, rc, ahead) in [(1usize, usize::MAX, false), (3, 1, true), (usize::MAX, 2, true), (7, 3, true), (usize::MAX, 5, true), (usize::MAX, usize::MAX, true)] {
+            evals += 1;
+            let r = match run_streams(&tree, &c.stdin, Streams { write_chunk: wc, read_chunk: rc, read_ahead: ahead, ..Streams::PLAIN }, fuel) {
+                Ok(r) => r,
+                Err(e) => return Outcome::fail(ctx(&format!("writer accepts {} bytes per call, reader hands out {} bytes per call: {}", wc, rc, e))),
+            };
+            let written: Vec<u8> = r.log.iter().filter_map(|e| if let Ev::W(Ok(b)) = e { Some(b.clone()) } else { None }).flatten().collect();
+            if written != transcript || r.err.is_some() != m.result.is_err() {
+                return Outcome::fail(ctx(&format!(
+                    "with a writer that accepts at most {} bytes per call and a reader that hands out at most {} bytes per call{} the run differs from the reference\n--- expected output: {:?} result {:?}\n--- rrss:            {:?} result {:?}",
+                    wc,
+                    rc,
+                    if ahead { " (ignoring line ends)" } else { "" },
+                    String::from_utf8_lossy(&transcript),
+                    m.result,
+                    String::from_utf8_lossy(&written),
+                    r.err
+                )));
+            }
+        }
         // ---- writer faults
         for k in positions(transcript.len()) {
             evals += 1;
@@ -364,6 +434,7 @@ impl Prop for C08 {
         add(c.stdin.contains("\n\n") || c.stdin.starts_with('\n'), "blank_input_line");
         add(!c.stdin.is_ascii(), "non_ascii_input");
         add(c.stdin.lines().any(|l| l.len() >= 100), "long_line");
+        add(c.stdin.len() > 8192 && m.trace.listens > 100, "input_beyond_8KiB_read_through");
         add(m.trace.loop_iters > 0, "io_in_loop");
         add(m.trace.calls > 0, "io_in_function");
         add(transcript.len() > 64, "sampled_fault_positions");
@@ -375,7 +446,7 @@ impl Prop for C08 {
         json!({ "src": render_canonical(&c.prog), "stdin": c.stdin })
     }
     fn expected_labels(&self) -> Vec<String> {
-        ["say_and_listen", "listen_at_eof", "no_final_newline", "blank_input_line", "non_ascii_input", "long_line", "io_in_loop", "io_in_function", "sampled_fault_positions"]
+        ["say_and_listen", "listen_at_eof", "no_final_newline", "blank_input_line", "non_ascii_input", "long_line", "input_beyond_8KiB_read_through", "io_in_loop", "io_in_function", "sampled_fault_positions"]
             .iter()
             .map(|s| s.to_string())
             .collect()
